@@ -133,4 +133,35 @@ Section Link.
     rewrite <- (fsum_perm F (fun x => msk F Kc U x * msk F Kc V (wrapD N (subi (sgn n k) x))) _ _ (band_is_image n n_pos Kc K_nonneg K_small D)).
     rewrite map_map. reflexivity.
   Qed.
+
+  (* ---- the chain: FFT contract => convolution theorem => band sum => prod2 ---- *)
+  Variables w w' : K.
+  Hypothesis w_n : fpow w n = 1.
+  Hypothesis w_prim : forall m, (0 < m < n)%nat -> fpow w m <> 1.
+  Hypothesis w_inv : w * w' = 1.
+
+  Lemma cconvD_ext_grid D (A A' B B' : list nat -> K) k : length k = D ->
+    (forall m, in_grid n D m -> A m = A' m) -> (forall m, in_grid n D m -> B m = B' m) -> cconvD n D A B k = cconvD n D A' B' k.
+  Proof.
+    intros Hl HA HB. unfold cconvD. apply (sumD_ext F n D). intros m Hm. apply (in_gridD_iff n n_pos) in Hm. destruct Hm as [Hlm Hfm].
+    rewrite HA by (split; assumption). rewrite HB; [reflexivity|].
+    destruct (subD_grid n n_pos k m ltac:(lia)) as [H1 H2]. split; [lia | exact H1].
+  Qed.
+
+  (* rfftn(irfftn U * irfftn V), restricted to the band, is the model's pseudo-spectral product: for band-masked spectra U, V given on signed
+     wavenumbers, u = irfftn U and v = irfftn V on the n^D grid, and every stored index k *)
+  Theorem fft_product_is_prod2 D (U V : field F) k : in_grid n D k ->
+    let u := idftI n D w' (on_grid U) in
+    let v := idftI n D w' (on_grid V) in
+    (if in_band Kc (sgn n k) then dftD n D w (fun j => u j * v j) k else 0) = prod2 F D N Kc U V (sgn n k).
+  Proof.
+    intros Hk u v. unfold prod2, msk at 1. destruct (in_band Kc (sgn n k)); [|reflexivity].
+    rewrite (dftD_convolution F n w w' n_pos w_n w_prim w_inv D u v k Hk).
+    destruct Hk as [Hl Hf].
+    rewrite (cconvD_ext_grid D _ (on_grid U) _ (on_grid V) k Hl).
+    - rewrite (cconvD_is_cconv2 D U V k Hl Hf). unfold nfac, npts.
+      pose proof (fpow_neq0 F _ D (n_nz F n n_pos)) as Hp. field. exact Hp.
+    - intros m Hm. apply (dftD_idftI F n w w' n_pos w_n w_prim w_inv). exact Hm.
+    - intros m Hm. apply (dftD_idftI F n w w' n_pos w_n w_prim w_inv). exact Hm.
+  Qed.
 End Link.
